@@ -312,32 +312,25 @@ func newQueryPlan(ctx context.Context, store storage.Store, stm *semantic.Statem
 func (p *queryPlan) processClause(ctx context.Context, cls *semantic.GraphClause, lo *storage.LookupOptions) (bool, error) {
 	// This method decides how to process the clause based on the current
 	// list of bindings solved and data available.
-	if cls.Specificity() == 3 {
+	if len(cls.Bindings()) == 0 {
+		// The clause introduces no binding (all its components are constants
+		// or bounds and it has no alias), so it adds neither columns nor rows:
+		// it only has to be satisfiable, wherever it stands in the pattern.
 		tracer.V(3).Trace(p.tracer, func() *tracer.Arguments {
 			return &tracer.Arguments{
-				Msgs: []string{"Clause is fully specified"},
+				Msgs: []string{"Clause has no bindings; checking that it can be satisfied"},
 			}
 		})
-		if cls.Optional && !cls.HasAlias() {
-			tracer.V(3).Trace(p.tracer, func() *tracer.Arguments {
-				return &tracer.Arguments{
-					Msgs: []string{fmt.Sprintf("Processing optional clause of specificity 3: %v", cls)},
-				}
-			})
+		if cls.Optional {
 			return false, nil
 		}
-		t, err := triple.New(cls.S, cls.P, cls.O)
+		chk := *cls
+		chk.SAlias = "?__clause_is_satisfiable"
+		tbl, err := simpleFetch(ctx, p.grfs, &chk, lo, 0, p.chanSize, p.tracer)
 		if err != nil {
-			return false, err
+			return true, err
 		}
-		b, tbl, err := simpleExist(ctx, p.grfs, cls, t, p.tracer)
-		if err != nil {
-			return false, err
-		}
-		if err := p.tbl.AppendTable(tbl); err != nil {
-			return b, err
-		}
-		return b, nil
+		return tbl.NumRows() == 0, nil
 	}
 
 	exist, total := 0, 0
